@@ -6,7 +6,7 @@
     (S3 certified samples + S4), conjugation symmetry of boost's Y_lm (S4). *)
 From Coq Require Import Reals ZArith List Bool Lra Lia.
 From Coquelicot Require Import Coquelicot.
-From LP Require Import Num NumR OrdLaws Gen_C17_Formulas C17_Model C17_Defs C17_Proofs C17_Proofs_Round C17_Proofs_InvErf C17_Proofs_VSH C17_Proofs_Hist C17_Proofs_Series C17_Proofs_Conj C17_Proofs_Throw.
+From LP Require Import Num NumR OrdLaws Gen_C17_Formulas C17_Model C17_Defs C17_Proofs C17_Proofs_Round C17_Proofs_InvErf C17_Proofs_VSH C17_Proofs_Hist C17_Proofs_Series C17_Proofs_Conj C17_Proofs_Throw Gen_C17_More C17_GenTie C17_Proofs_Gen.
 Import ListNotations.
 Local Open Scope R_scope.
 
@@ -404,3 +404,72 @@ Example C17_vsh_history_with_throw_nonvacuous :
   let q2 : Z * Z * Z * (Z -> Z -> option (R * R)) := (2%Z, 1%Z, 1%Z, fun _ _ => Some (1, 0)) in
   vsh_run_x ROps (q1 :: q2 :: nil) = Ok (None :: Some ((1, 0) :: nil) :: nil).
 Proof. reflexivity. Qed.
+
+(** ** T-tie, second part (seventh pass): Round, Dawson_Integral, Erfi and Inv_Erf themselves are regenerated from src/Special_Functions.cpp
+    on every run ([Gen_C17_More.v], written by tools/cxx2gallina_C17.py from clang's AST before this file is rebuilt) and ARE the hand model
+    the theorems above are about.  For every arithmetic satisfying the literal laws ([LitLaws]: a literal is the quotient num/den it spells,
+    an integer literal is the integer, 0 and 1 are the ring constants) and whatever the library functions they call return (parameters):
+    the two Sign overloads are [sign1] / [sign2]; the generated Round (N *= sign, the three reassignments of prefactor, digits - 1 in unsigned
+    arithmetic) is [round]; the generated Dawson_Integral - its [static std::vector<double> c(NMAX)] as explicit state (table at entry ->
+    table at exit, value), both counted loops unrolled with the bound NMAX = 6 read from the source - is the stateful model [dawson_st]
+    (whose loops are Fixpoints with fuel 6), for every table; the generated Erfi over the generated Dawson_Integral is [erfi_st] / [erfi];
+    the generated Inv_Erf (guards, the lambda x -> erf(x) - p, the bracket -10, 10 and the accuracy 1e-4 handed to Find_Root) is [inv_erf].
+    The reals satisfy the laws (first conjunct: non-vacuity).  A changed formula, comparison, guard, literal, loop bound, increment, table
+    index or operand order in one of these C++ functions breaks this theorem before any case is run. *)
+Theorem C17_generated_round_dawson_erfi_inv_erf_are_model :
+  LitLaws ROps /\
+  forall (T : Type) (Ops : NumOps T), LitLaws Ops ->
+  forall (pi_c : T) (sign_f : T -> Z) (sign2_f : T -> T -> T) (dawson_f : T -> T) (FR : (T -> T) -> T -> T -> T -> res T),
+  (forall x, g_Sign Ops x = sign1 Ops x) /\
+  (forall x y, g_Sign2 Ops x y = sign2 Ops x y) /\
+  (forall N digits, g_Round Ops pi_c (g_Sign Ops) sign2_f dawson_f FR N digits = round Ops N digits) /\
+  (forall c x, g_Dawson_Integral Ops pi_c sign_f (g_Sign2 Ops) dawson_f FR c x = dawson_st Ops c x) /\
+  (forall x, g_Erfi Ops pi_c sign_f sign2_f (dawson Ops) FR x = erfi Ops pi_c x) /\
+  (forall c x, (let cy := g_Dawson_Integral Ops pi_c sign_f (g_Sign2 Ops) dawson_f FR c x in
+                (fst cy, g_Erfi Ops pi_c sign_f sign2_f (fun _ => snd cy) FR x)) = erfi_st Ops pi_c c x) /\
+  (forall p, g_Inv_Erf Ops pi_c sign_f sign2_f dawson_f FR p = inv_erf Ops FR p).
+Proof. exact generated_more_are_model. Qed.
+Print Assumptions C17_generated_round_dawson_erfi_inv_erf_are_model.
+
+(** "Round(x,d) is odd, idempotent, monotone and within half a unit of the d-th significant digit of x", stated directly about the term generated
+    from the C++ of Round (no hand model in the statement; the callees it does not use are arbitrary): for every real x <> 0 and d = 1..7 the result
+    is the multiple of q = 10^(k-d+1) nearest to x (halves away from zero), within q/2; odd for every x and digits; idempotent; monotone; 0 -> 0
+    for digits <= 7 and digits > 7 terminates the process. *)
+Theorem C17_generated_round_clauses (pi_c : R) (s2f : R -> R -> R) (df : R -> R) (FR : (R -> R) -> R -> R -> R -> res R) :
+  let Round := fun x d => g_Round ROps pi_c (g_Sign ROps) s2f df FR x d in
+  (forall x d, x <> 0 -> (1 <= d <= 7)%Z ->
+     let k := decade_of x in let q := powerRZ 10 (k - d + 1) in
+     powerRZ 10 k <= Rabs x < powerRZ 10 (k + 1) /\
+     exists r, Round x d = Ok r /\
+       r = (if Rlt_dec 0 x then 1 else -1) * IZR (Int_part (Rabs x / q + / 2)) * q /\ Rabs (r - x) <= q / 2) /\
+  (forall x d, Round (- x) d = rmap Ropp (Round x d)) /\
+  (forall x d r, (1 <= d <= 7)%Z -> Round x d = Ok r -> Round r d = Ok r) /\
+  (forall x y d rx ry, (1 <= d <= 7)%Z -> x <= y -> Round x d = Ok rx -> Round y d = Ok ry -> rx <= ry) /\
+  (forall x d, ((d <= 7)%Z -> Round 0 d = Ok 0) /\ ((7 < d)%Z -> Round x d = Exit)).
+Proof. exact (gen_round_clauses pi_c s2f df FR). Qed.
+Print Assumptions C17_generated_round_clauses.
+
+(** "Dawson_Integral is odd and accurate to 2e-7 absolutely" (series branch), stated directly about the term generated from the C++ of
+    Dawson_Integral with its static table as state: called with ANY table of six entries (whatever earlier calls left there) the value is odd in x,
+    a repeat of the call from the table it left returns the same value, the table keeps six entries, and for every real |x| < 0.2 the value is
+    within (16/945)|x|^9 <= 2e-7 of Dawson's integral. *)
+Theorem C17_generated_dawson_clauses (pi_c : R) (sf : R -> Z) (df : R -> R) (FR : (R -> R) -> R -> R -> R -> res R) (c : list R) (x : R) :
+  let D := fun c x => g_Dawson_Integral ROps pi_c sf (g_Sign2 ROps) df FR c x in
+  length c = 6%nat ->
+  snd (D c (- x)) = - snd (D c x) /\
+  length (fst (D c x)) = 6%nat /\
+  snd (D (fst (D c x)) x) = snd (D c x) /\
+  (Rabs x < 1 / 5 -> Rabs (snd (D c x) - dawson_def x) <= 16 / 945 * Rabs x ^ 9 /\ Rabs (snd (D c x) - dawson_def x) <= 2 / 10000000).
+Proof. exact (gen_dawson_clauses pi_c sf df FR c x). Qed.
+Print Assumptions C17_generated_dawson_clauses.
+Example C17_generated_dawson_nonvacuous : length (daw_table0 ROps) = 6%nat /\ Rabs (1 / 10) < 1 / 5.
+Proof. exact gen_dawson_nonvacuous. Qed.
+
+(** Inv_Erf's guards, about the term generated from the C++ of Inv_Erf: p = 1 -> 10, p = -1 -> -10, any other |p| >= 1 terminates the process,
+    whatever Find_Root is. *)
+Theorem C17_generated_inv_erf_guards (pi_c : R) (sf : R -> Z) (s2f : R -> R -> R) (df : R -> R) (FR : (R -> R) -> R -> R -> R -> res R) (p : R) :
+  let I := g_Inv_Erf ROps pi_c sf s2f df FR in
+  I 1 = Ok 10 /\ I (- (1)) = Ok (- (10)) /\
+  (1 <= Rabs p -> 1 / 10000000000000000 <= Rabs (p - 1) -> 1 / 10000000000000000 <= Rabs (p + 1) -> I p = Exit).
+Proof. exact (gen_inv_erf_guards pi_c sf s2f df FR p). Qed.
+Print Assumptions C17_generated_inv_erf_guards.
